@@ -42,8 +42,8 @@ func observeSome(k *sg.Case, rng *lib.RNG, limit int, focus []types.Map) string 
 	// uniqueness of ids
 	for i := range all.Docs {
 		for j := i + 1; j < len(all.Docs); j++ {
-			if types.Compare(all.Docs[i].Get(sg.S("id")), all.Docs[j].Get(sg.S("id"))) == 0 {
-				k.Fail("duplicate-id", "two stored documents share the id "+lib.EncodeVal(all.Docs[i].Get(sg.S("id"))))
+			if sg.RCompare(sg.Field(all.Docs[i], sg.S("id")), sg.Field(all.Docs[j], sg.S("id"))) == 0 {
+				k.Fail("duplicate-id", "two stored documents share the id "+lib.EncodeVal(sg.Field(all.Docs[i], sg.S("id"))))
 			}
 		}
 	}
@@ -59,7 +59,7 @@ func observeSome(k *sg.Case, rng *lib.RNG, limit int, focus []types.Map) string 
 			}
 			var t []string
 			for _, key := range ix.Keys {
-				t = append(t, lib.EncodeVal(d.Get(sg.S(key))))
+				t = append(t, lib.EncodeVal(sg.Field(d, sg.S(key))))
 			}
 			tk := strings.Join(t, " , ")
 			if seen[tk] {
@@ -71,7 +71,7 @@ func observeSome(k *sg.Case, rng *lib.RNG, limit int, focus []types.Map) string 
 	for _, f := range obsFields {
 		vals := map[string]types.Value{}
 		for _, d := range all.Docs {
-			v := d.Get(sg.S(f))
+			v := sg.Field(d, sg.S(f))
 			vals[lib.EncodeVal(v)] = v
 		}
 		vals[lib.EncodeVal(types.NewInt(9))] = types.NewInt(9) // a value no document holds
@@ -83,7 +83,7 @@ func observeSome(k *sg.Case, rng *lib.RNG, limit int, focus []types.Map) string 
 		if limit > 0 && len(keys) > limit {
 			keep := map[string]bool{lib.EncodeVal(types.NewInt(9)): true, lib.EncodeVal(types.NewInt(0)): true}
 			for _, d := range focus {
-				keep[lib.EncodeVal(d.Get(sg.S(f)))] = true
+				keep[lib.EncodeVal(sg.Field(d, sg.S(f)))] = true
 			}
 			for i := 0; i < limit; i++ {
 				keep[keys[rng.Intn(len(keys))]] = true
@@ -113,7 +113,7 @@ func observeSome(k *sg.Case, rng *lib.RNG, limit int, focus []types.Map) string 
 			// the access paths agree
 			var want []string
 			for _, d := range all.Docs {
-				if types.Equal(d.Get(sg.S(f)), v) {
+				if sg.REqual(sg.Field(d, sg.S(f)), v) {
 					want = append(want, lib.EncodeVal(d))
 				}
 			}
@@ -212,7 +212,7 @@ func history(c *lib.Ctx, sc *lib.Script, fails *[]lib.OracleFail, rng *lib.RNG, 
 			if e, ok := existing(); ok {
 				for _, f := range []string{"a", "b", "n.x"} {
 					if rng.Chance(2, 3) {
-						if v := e.Get(sg.S(f)); v != nil {
+						if v := sg.Field(e, sg.S(f)); v != nil {
 							d = d.Set(sg.S(f), v)
 						} else {
 							d = d.Delete(sg.S(f))
@@ -226,7 +226,7 @@ func history(c *lib.Ctx, sc *lib.Script, fails *[]lib.OracleFail, rng *lib.RNG, 
 			o = sg.Op{Kind: "upd", Filter: types.NewMap(sg.S("id"), g.Id()), Update: g.Update()}
 			if e, ok := existing(); ok && rng.Chance(1, 2) { // make it collide with a stored document's key fields
 				f := lib.Pick(rng, []string{"a", "b", "n.x"})
-				if v := e.Get(sg.S(f)); v != nil {
+				if v := sg.Field(e, sg.S(f)); v != nil {
 					o.Update = types.NewMap(sg.S("$set"), types.NewMap(sg.S(f), v))
 					c.Hit("fault:update-to-stored-key")
 				}
@@ -257,7 +257,7 @@ func history(c *lib.Ctx, sc *lib.Script, fails *[]lib.OracleFail, rng *lib.RNG, 
 							continue // keep it partial more often than not
 						}
 						o.Filter = f
-						if (f == nil) != (ix.Filter == nil) || (f != nil && !types.Equal(f, ix.Filter)) {
+						if (f == nil) != (ix.Filter == nil) || (f != nil && !sg.REqual(f, ix.Filter)) {
 							break
 						}
 					}
@@ -424,6 +424,8 @@ func Run(c *lib.Ctx) {
 		"each store method is one atomic step (it holds the store's write lock throughout)",
 	}
 	c.Trusted = []string{"google/btree (modelled as a sorted association list)", "types.Map internals (C15)"}
+	sg.SelfCheck(c, &fails) // the reference's own order / equality against the value layer's, once per run
+	c.Assumptions = append(c.Assumptions, sg.Independence)
 	ms, err := c.RunModel("c12", sc)
 	if err != nil {
 		c.Violation("model driver failed: "+err.Error(), "", false)
